@@ -597,6 +597,13 @@ func replayCase(rf *vt.ReplayFile) error {
 		}
 		_, err := runFlap(&c)
 		return err
+	case "expiry-failover":
+		var c failoverCase
+		if err := vt.Decode(rf, &c); err != nil {
+			return err
+		}
+		_, err := runFailover(&c)
+		return err
 	case "expiry-burst":
 		var c burstCase
 		if err := vt.Decode(rf, &c); err != nil {
